@@ -40,6 +40,10 @@ type Case struct {
 	Universe bool              `json:"universe,omitempty"`
 	GoType   map[string]string `json:"go_type,omitempty"`
 	Rename   map[string]string `json:"rename,omitempty"`
+	// LateRegister (universe only): the request is resolved once before any RegisterType /
+	// RegisterField call is made (a warm-up whose response is not looked at) - the bindings the
+	// application registers arrive after the root has already been used.
+	LateRegister bool `json:"late_register,omitempty"`
 	// Text overrides the rendered document (replay of shrunk / hand-written requests).
 	Text string `json:"text,omitempty"`
 	Note string `json:"note,omitempty"`
@@ -555,6 +559,10 @@ func NewWorld(c *Case) (*World, error) {
 		return nil, fmt.Errorf("schema rejected: %w\n%s", err, c.Schema.SDL(hx.SDLOpts{}))
 	}
 	if c.Universe {
+		if c.LateRegister {
+			w.Resolve()
+			w.ResetCalls()
+		}
 		for _, tn := range c.Register {
 			sample := newUniverseValue(c.GoType[tn], false)
 			if c.GoType[tn] == "Vee" {
